@@ -86,6 +86,30 @@ example : resEq (genRun [] wOk .rs [] 1 [3, 5] []) (callRhs wOk 1 [3, 5]) = true
 example : okC wOkIA = true ∧ resEq (genRun [] wOkIA .py [] 1 [3, 5] []) (callRhs wOkIA 1 [3, 5]) = true := by
   decide +kernel
 
+/-- **Variable order = return order, every model, every language, with or without free parameters.**  Whenever
+    generation succeeds, the emitted function takes the requested free parameters as its extra inputs in the
+    requested order, destructures the state into the model's variables in `get_initial_conditions()` order, and
+    returns `d<x>dt` for exactly those names in exactly that order — or `()` when no reaction changes any
+    variable (F-C07-3).  No hypothesis on the model. -/
+theorem C07_return_order (bad : List Name) (c : Content) (L : Lang) (free : List Name) (p : SLP)
+    (h : genModel bad c L free = .ok p) :
+    p.lang = L ∧ p.extra = free ∧ p.ret = retNames p.inputs (diffEqs c.rxns)
+      ∧ p.retUnit = (diffEqs c.rxns).isEmpty
+      ∧ ∃ cache, createCache c = .ok cache ∧ p.inputs = omKeys cache.init :=
+  genModel_shape bad c L free p h
+
+/-- **Every returned name is assigned, every model** (Python / TypeScript / Rust; after `fix: a variable that no
+    reaction changes gets the derivative zero in generated model code`): the return line never mentions a
+    `d<x>dt` that no line of the function defines. -/
+theorem C07_returned_names_assigned (bad : List Name) (c : Content) (L : Lang) (free : List Name) (p : SLP)
+    (hL : L ≠ .jl) (h : genModel bad c L free = .ok p) :
+    ∀ n ∈ p.ret, n ∈ p.assigns.map (·.1) :=
+  genModel_ret_assigned bad c L free p hL h
+
+example : (match genModel [] wNoEq .rs [] with
+    | .ok p => p.ret == ["dxdt", "dzdt"] && p.inputs == ["x", "z"] && p.assigns.map (·.1) == ["k", "r", "dxdt", "dzdt"]
+    | .error _ => false) = true := by decide +kernel
+
 /-- **The full statement is false of the unchanged code.**  F-C07-3: when no reaction changes any variable the
     generated function returns `()` / `[()]` instead of one zero per variable (Python: a list holding an empty
     tuple; TypeScript: not an expression; Rust: the return type does not match). -/
